@@ -419,6 +419,50 @@ func c06MapOrderRealtime(c *Ctx) {
 	c.Witness("map_with_3+_entries_ranged")
 }
 
+// c06MapOrderExtensions: a message with NYCT content (an unplanned Mercury alert whose header uses the
+// vocabulary of several causes, elevator alerts of two groups, assigned and unassigned trips) under
+// bundled extension configurations, with every combination of map iteration starts inside the
+// library AND the extensions.
+func c06MapOrderExtensions(c *Ctx) {
+	cfgs := c06Configs()
+	pick := []int{3, 6, 21, 37} // one nycttrips configuration, three of nyctalerts
+	cfg := cfgs[pick[c.Free("configuration", len(pick))]]
+	c17AlarmingHeader = 3
+	unplanned := c17MercuryEntity(nil, mercurySpec{prio1: 29, prio2: -2, prefix: 1, hasExt: true})
+	c17AlarmingHeader = 0
+	ts := uint64(1700000000)
+	m := newFeed(&ts)
+	m.Entity = []*gtfsrt.FeedEntity{unplanned, elevEntity(elevAlert{"A27", "N", "1"}, 0), elevEntity(elevAlert{"E01", "N", "1"}, 1), elevEntity(elevAlert{"A27", "S", "1"}, 2), plainAlertEntity("plain-1")}
+	var more gtfsrt.FeedMessage
+	if err := proto.Unmarshal(c06Feeds()[3], &more); err != nil {
+		harnessBug("feed 3: %v", err)
+	}
+	m.Entity = append(m.Entity, more.Entity...)
+	b := marshalFeed(m)
+	c.Input(hash64(cfg.name+string(b)), true, func() string { return cfg.name + "\n" + feedText(m) })
+	ref, err, ok := parseRT(c, b, cfg.mk())
+	if !ok || err != nil {
+		c.Fail("valid-message-rejected", "%v", err)
+		return
+	}
+	c.SetMapMode(mapFree)
+	r, err, ok := parseRT(c, b, cfg.mk())
+	c.SetMapMode(mapFixed)
+	if !ok || err != nil {
+		c.Fail("valid-message-rejected", "%v", err)
+		return
+	}
+	c.Steps(2)
+	o := rtDumpOpts{links: true}
+	wd, gd := dumpRealtime(ref, o), dumpRealtime(r, o)
+	c.Outcome(gd)
+	c.Relate("realtime-pure-function", cfg.name+"|"+string(b), gd)
+	if wd != gd {
+		c.Fail(cfg.family+"/map-order/"+classifyDiff(wd, gd), "%s: the same message parses to a different result under another map iteration order\n%s", cfg.name, diffLines(wd, gd))
+	}
+	c.Witness("map_orders_inside_extensions")
+}
+
 // ---------------------------------------------------------------------------------------
 // histories
 
@@ -845,6 +889,7 @@ func init() {
 				{Name: "wall-clock", Bound: -1, Run: c06WallClock()},
 				{Name: "rejected-inputs", Bound: -1, Run: c06RejectedInputs()},
 				{Name: "map-orders/realtime", Bound: -1, Run: c06MapOrderRealtime},
+				{Name: "map-orders/realtime-under-extensions", Bound: -1, Run: c06MapOrderExtensions},
 				{Name: fmt.Sprintf("histories<=%d/realtime", n), Bound: -1, Run: c06History(n)},
 				{Name: "histories<=3/static", Bound: -1, Run: c06StaticHistory},
 				{Name: fmt.Sprintf("histories<=%d/pristine-processes", np), Bound: -1, Run: c06FreshProcess(np)},
